@@ -503,3 +503,81 @@ def check_create_config(rng, n):
         shutil.rmtree(tmp, ignore_errors=True)
     check_create_config.last = stats_out
     return failures
+
+
+def check_creator_history(rng, n):
+    """-> list of failure dicts.  One QcConfigCreator built from TWO climatology files on DIFFERENT grids (same shape,
+    spacing 1 and 2 degrees) is asked, in a random order and with repeats, for variables of either file over bounding
+    boxes that recur; every answer must equal the answer of a FRESH creator asked that one question (which
+    check_create_config compares with the limit expressions): a generated config may not depend on what the creator
+    was asked before."""
+    import numpy as np
+    import pandas as pd
+    import xarray as xr
+
+    from ioos_qc.config_creator import config_creator as cc
+
+    tmp = tempfile.mkdtemp(prefix="fx_hist_", dir=str(core.BUILD) if core.BUILD.exists() else None)
+    failures = []
+    stats_out = {"histories": 0, "calls": 0}
+
+    def spans(creator, vcfg):
+        try:
+            with warnings.catch_warnings():
+                warnings.simplefilter("ignore")
+                out = creator.create_config(cc.QcVariableConfig(vcfg))
+            sec = out[vcfg["variable"]]["qartod"]["gross_range_test"]
+            return [float(v) for v in (sec["suspect_span"][0], sec["suspect_span"][1], sec["fail_span"][0], sec["fail_span"][1])]
+        except Exception as e:  # noqa: BLE001
+            return "R:" + type(e).__name__
+
+    try:
+        for k in range(n):
+            nlat, nlon = rng.randint(3, 5), rng.randint(3, 5)
+            lat0, lon0 = rng.randint(-6, 4), rng.randint(-20, 14)
+            time = pd.to_datetime([f"2001-{m:02d}-15" for m in range(1, 13)])
+            dsets, grids = [], {}
+            for name, var, ncvar, step in (("one", "temp", "t_an", 1), ("two", "salt", "s_an", 2)):
+                lat = np.array([lat0 + step * i for i in range(nlat)], dtype=float)
+                lon = np.array([lon0 + step * i for i in range(nlon)], dtype=float)
+                vals = np.array([[rng.randint(-32, 32) / 4 for _ in range(nlon)] for _ in range(nlat)], dtype=float)
+                data = np.broadcast_to(vals, (12,) + vals.shape).copy()
+                path = os.path.join(tmp, f"hist_{k}_{name}.nc")
+                xr.Dataset({ncvar: (("time", "lat", "lon"), data)},
+                           coords={"time": time, "lat": lat, "lon": lon}).to_netcdf(path, engine="scipy")
+                dsets.append({"name": name, "file_path": path, "variables": {var: ncvar}})
+                grids[var] = {"lat": lat.tolist(), "lon": lon.tolist(), "values": vals.tolist()}
+            # boxes that hold at least 2 x 2 cells of both grids (anchored at the common origin)
+            boxes = [[float(lon0), float(lat0), float(lon0 + 2 * rng.randint(1, nlon - 2)), float(lat0 + 2 * rng.randint(1, nlat - 2))]
+                     for _ in range(2)]
+            fx = rng.choice(SPAN_FX)
+            calls = []
+            for _ in range(rng.randint(3, 6)):
+                calls.append({"variable": rng.choice(["temp", "salt"]), "bbox": rng.choice(boxes),
+                              "start_time": "2020-03-01", "end_time": "2020-04-01",
+                              "tests": {"gross_range_test": dict(zip(("suspect_min", "suspect_max", "fail_min", "fail_max"), fx))}})
+            with warnings.catch_warnings():
+                warnings.simplefilter("ignore")
+                shared = cc.QcConfigCreator(cc.CreatorConfig({"datasets": dsets}))
+            stats_out["histories"] += 1
+            for i, vcfg in enumerate(calls):
+                got = spans(shared, vcfg)
+                with warnings.catch_warnings():
+                    warnings.simplefilter("ignore")
+                    fresh = cc.QcConfigCreator(cc.CreatorConfig({"datasets": dsets}))
+                want = spans(fresh, vcfg)
+                stats_out["calls"] += 1
+                same = got == want if isinstance(got, str) or isinstance(want, str) else all(_close(g, w) for g, w in zip(got, want))
+                if not same:
+                    failures.append({"kind": "create_config_history", "function": "QcConfigCreator.create_config",
+                                     "case": {"grids": grids, "calls": calls[:i + 1]}, "impl": got, "want": want,
+                                     "clause": f"call {i + 1} of a history on one creator (two files on different grids) differs "
+                                               "from the same call on a fresh creator"})
+                    break
+            for d in dsets:
+                os.remove(d["file_path"])
+    finally:
+        shutil.rmtree(tmp, ignore_errors=True)
+    check_creator_history.last = stats_out
+    return failures
+
